@@ -26,8 +26,8 @@ PROP = dict(
         "name; Proofs/C01Collect.v) about the models instantiated there with the generated constants, and are only as tied to "
         "the code as those checks' correspondence runs make them; this check itself runs the implementation only (panic / "
         "hang / range)",
-        "NOT proved (theorems named _partial, premises stated in Properties/C01.v): Rcb/Rib for finite f64 coordinates beyond "
-        "the binary32 range (the theorems require a finite binary32 image) and for f64 weights; HilbertCurve's quantile search is "
+        "NOT proved (theorems named _partial, premises stated in Properties/C01.v): Rcb for f64 weights (i64 weights and EVERY finite f64 "
+        "coordinate set: C01_rcb_finite_f64, full since the clamp fix dcc53e7); Rib given the rotated points only; HilbertCurve's quantile search is "
         "shown to terminate only for part_count <= 2; MultiJagged in binary64 returns Ok given the named premise mono_cuts "
         "(split positions of every call non-decreasing), not proved for binary64 -- for every arithmetic only panic sites 4 "
         "and 5 are reachable, and exact arithmetic is total; Grid::rcb with f64 weights only for exact dyadic weights with "
